@@ -979,7 +979,7 @@ func lemmaUpdateAttributesActiveAtConstruction(funcGasCost uint64, g vmcommon.Ba
 //@ func (b *builtInFuncFactory) GasScheduleChange
 //@   requires b != nil && !isNil(b.builtInFunctions) && locksFree()
 //@   view reg = payload(b.builtInFunctions)
-//@   requires regOK(reg) && forall(k, bseq, regHas(reg, k) ==> implements(regTyp(reg, k), typeid("vmcommon.BuiltinFunction")) && regVal(reg, k) != 0)
+//@   requires regOK(reg) && mlen(regMap(reg)) <= 1048576 && forall(k, bseq, regHas(reg, k) ==> implements(regTyp(reg, k), typeid("vmcommon.BuiltinFunction")) && regVal(reg, k) != 0)
 //@   loop 0 invariant b.gasConfig == newGasConfig && newGasConfig != nil && fresh(newGasConfig) && locksFree()
 //@   loop 0 invariant forall(k, bseq, visited(0)[k] ==> priced(regTyp(reg, k), regVal(reg, k), newGasConfig))
 //@   ensures[C16] b.gasConfig != old(b.gasConfig) ==> b.gasConfig != nil && completeBase(gasSchedule["BaseOperationCost"]) && completeBuiltIn(gasSchedule["BuiltInCost"]) && b.gasConfig.BuiltInCost.ESDTTransfer == gasSchedule["BuiltInCost"]["ESDTTransfer"] && b.gasConfig.BaseOperationCost.StorePerByte == gasSchedule["BaseOperationCost"]["StorePerByte"]
@@ -1063,6 +1063,16 @@ func lemmaFlagBytesRoundTrip(paused bool, frozen bool, b []byte) (bool, bool, []
 //@ func (f *functionContainer) Len
 //@   requires f != nil && f.objects != nil && locksFree()
 //@   ensures[C19] r == mlen(f.objects.values)
+
+// Keys: the names under which a function is stored - exactly those (a key that is not a string has no name)
+//@ func (f *functionContainer) Keys
+//@   implements vmcommon.BuiltInFunctionContainer.Keys
+//@   requires f != nil && f.objects != nil && locksFree() && (f.objects.values != nil ==> mlen(f.objects.values) <= 1048576)
+//@   loop 0 invariant keys != nil && fresh(keys)
+//@   loop 0 invariant forall(k, bseq, has(keys, k) ==> mhas(f.objects.values)[skey(k)])
+//@   loop 0 invariant forall(j, int, trigger(itemTag(j)), itemTag(j) && 0 <= j && j <= rangeindex ==> forall(k, bseq, mkey(rangeslice[j]) == skey(k) ==> has(keys, k)))
+//@   ensures[C18,C16,C19] r != nil && fresh(r) && forall(k, bseq, has(r, k) == mhas(f.objects.values)[skey(k)])
+//@   modifies newmap(r)
 
 // ---- the factory (C18 registry clause, C16 at construction): the container holds exactly the 23 protocol
 // names, each bound to the implementation of that name configured from the factory arguments and priced by
